@@ -352,6 +352,9 @@ def main(tier, replay=None):
         print("replay:", "still fails" if hit else "no longer fails", hit[:1])
         return 1 if hit else 0
     proof_ok = run.proof_stage()
+    ok_aux, log_aux = common.coq_build("theories/Ops/DtypeSites.vo")     # used by the generated case files, not in the closure of the Props file
+    if not ok_aux:
+        proof_ok, run.proof_problem = False, "coq build of theories/Ops/DtypeSites.vo failed: " + log_aux[-800:]
     site_problem = sites_obligation(run)
     bad = dtype_oracle(run, 25 if thorough else 2) + accuracy_oracle(run)
     new = []
